@@ -65,7 +65,7 @@ Qed.
 Definition Rel (m : mstate) (l : list req) : Prop :=
   forall id, mfind id m = match lookup id l with Some r => Some (f_sdone r) | None => None end.
 
-(* the table never holds two requests with one id: `put` removes first *)
+(* the table never holds two requests with one id: `put` replaces the entry with the same id *)
 Definition NoDupIds (l : list req) : Prop := NoDup (map cid l).
 
 Lemma lookup_notin id l : ~ In id (map cid l) -> lookup id l = None.
@@ -98,8 +98,35 @@ Proof.
   destruct (cid r =? j) eqn:E; [apply Z.eqb_eq in E; subst; assumption|].
   simpl. intros [H|H]; [apply Z.eqb_neq in E; contradiction|apply IH in H; assumption].
 Qed.
+(* `put` replaces in place, or appends when the id is absent *)
+Lemma lookup_put j r l : lookup j (put r l) = if cid r =? j then Some r else lookup j l.
+Proof.
+  induction l as [|x t IH]; cbn [put lookup]; [reflexivity|].
+  destruct (cid x =? cid r) eqn:E; cbn [lookup].
+  - apply Z.eqb_eq in E. rewrite E. destruct (cid r =? j); reflexivity.
+  - rewrite IH. destruct (cid x =? j) eqn:E2; [|reflexivity].
+    apply Z.eqb_eq in E2. subst j. rewrite Z.eqb_sym, E. reflexivity.
+Qed.
+Lemma in_put r l x : In x (map cid (put r l)) -> x = cid r \/ In x (map cid l).
+Proof.
+  induction l as [|y t IH]; cbn [put map In]; [intros [H|[]]; left; symmetry; exact H|].
+  destruct (cid y =? cid r) eqn:E; cbn [map In].
+  - apply Z.eqb_eq in E. rewrite E. tauto.
+  - intros [H|H]; [tauto|]. apply IH in H. tauto.
+Qed.
 Lemma nodup_put r l : NoDupIds l -> NoDupIds (put r l).
-Proof. intros ND. unfold put, NoDupIds. simpl. constructor; [apply notin_remove; exact ND|apply nodup_remove; exact ND]. Qed.
+Proof.
+  unfold NoDupIds. induction l as [|y t IH]; cbn [put map]; intros ND; [constructor; [intros []|constructor]|].
+  inversion ND as [|? ? Hn Ht]; subst.
+  destruct (cid y =? cid r) eqn:E; cbn [map].
+  - apply Z.eqb_eq in E. rewrite <- E. constructor; assumption.
+  - constructor; [|apply IH; exact Ht]. intros H. apply in_put in H as [H|H]; [apply Z.eqb_neq in E; contradiction|contradiction].
+Qed.
+Lemma put_same r l : lookup (cid r) l = Some r -> put r l = l.
+Proof.
+  induction l as [|y t IH]; cbn [put lookup]; [discriminate|].
+  destruct (cid y =? cid r); [intros H; inversion H; reflexivity|intros H; rewrite IH by exact H; reflexivity].
+Qed.
 
 (* monitor-side facts need the same no-duplicate discipline *)
 Definition NoDupM (m : mstate) : Prop := NoDup (map fst m).
@@ -138,8 +165,8 @@ Proof.
 Qed.
 Lemma rel_put r m l : NoDupM m -> NoDupIds l -> Rel m l -> Rel (mset (cid r) (f_sdone r) m) (put r l).
 Proof.
-  intros NM NL R j. unfold mset, put. simpl. destruct (cid r =? j) eqn:E; [reflexivity|].
-  apply Z.eqb_neq in E. rewrite mfind_mdel_other, lookup_remove_neq by congruence. apply R.
+  intros NM NL R j. rewrite lookup_put. unfold mset. simpl. destruct (cid r =? j) eqn:E; [reflexivity|].
+  apply Z.eqb_neq in E. rewrite mfind_mdel_other by congruence. apply R.
 Qed.
 
 (* ---------- shape of what one step may emit about its target request ---------- *)
@@ -280,9 +307,9 @@ Qed.
 (* ---------- a step of that shape is accepted by the monitor and keeps monitor and table in step ---------- *)
 Lemma rel_put_same r m l : NoDupM m -> NoDupIds l -> Rel m l -> mfind (cid r) m = Some (f_sdone r) -> Rel m (put r l).
 Proof.
-  intros NM NL R Hf j. unfold put. simpl. destruct (cid r =? j) eqn:E.
+  intros NM NL R Hf j. rewrite lookup_put. destruct (cid r =? j) eqn:E.
   - apply Z.eqb_eq in E. subst j. exact Hf.
-  - apply Z.eqb_neq in E. rewrite lookup_remove_neq by congruence. apply R.
+  - apply R.
 Qed.
 
 Lemma shape_mon id sd res outs (efs : list eff) m s :
